@@ -642,3 +642,10 @@ PROP = with_src(PROP, share=10,
                 theorems=["Src.from_translated", "Src.InvalidMetadata.__init___eq_model", "Src._Validator._invalid_metadata_eq_model",
                           "Src.descriptors_all", "Src.descriptors_eq", "Src.Metadata.__getattr__dyn_eq_model",
                           "Src.Metadata.from_raw_eq_model", "Src.ksOf_perm", "Src.Metadata.from_email_eq_model"])
+
+# x9: `parse_email` (owner C18) is translated from metadata.py and proved equal to Email.parseEmail (Src/ParseEmail.lean); this property
+# relies on it too (entry point that never raises / the input of `from_email` / a visiting order that does not depend on the hash seed:
+# `Src.orderOf` is computed by sorting), so its obligations are listed here as well
+from srccall import with_src as _x9_with_src  # noqa: E402
+PROP = _x9_with_src(PROP, share=16, functions=["parse_email"], module=["PkgProofs.Props.Src.ParseEmail"],
+                    theorems=["Src.parse_email_translated", "Src.parse_email_eq_model", "Src.orderOf_perm"])
